@@ -637,13 +637,13 @@ def join_states(a, b, widen=False, thresholds=(), templates=False, template_vars
         for x in a.cons.le:
             if x in b.cons.le or b.cons.entails_le(x, b.bounds_of):
                 c.le.add(x)
-        if templates:
-            for x in _heap_templates(a, b, template_vars):
+        if templates or EXTRA_TEMPLATES:
+            for x in (_heap_templates(a, b, template_vars) if templates else []) + _extra_templates(a, b):
                 if x not in c.le and a.cons.entails_le(x, a.bounds_of) and b.cons.entails_le(x, b.bounds_of):
                     c.le.add(x)
         out.cons = c
     else:
-        out.cons = join_cons(a.cons, b.cons, a.bounds_of, b.bounds_of, _heap_templates(a, b, template_vars) if templates else ())
+        out.cons = join_cons(a.cons, b.cons, a.bounds_of, b.bounds_of, (_heap_templates(a, b, template_vars) if templates else []) + _extra_templates(a, b))
         # constraints over the payload of an enum variant that the other state does not have hold there vacuously
         for (x, y) in ((a, b), (b, a)):
             for c in x.cons.le:
@@ -671,6 +671,18 @@ def join_states(a, b, widen=False, thresholds=(), templates=False, template_vars
         out.guards = join_guards(a, b, out)
     else:
         out.guards = {k: v for k, v in a.guards.items() if b.guards.get(k) == v}
+    return out
+
+
+EXTRA_TEMPLATES = []     # linear forms f (meaning f == 0) an analysis wants tried at every join: kept when both sides entail them
+
+
+def _extra_templates(a, b):
+    out = []
+    for f in EXTRA_TEMPLATES:
+        if all(a.leaf(v) is not None and b.leaf(v) is not None for v in f.terms):
+            out.append(f)
+            out.append(-f)
     return out
 
 
